@@ -290,3 +290,65 @@ func isKeywordOrPredeclared(s string) bool { return kwPre[s] }
 
 // IsKeywordOrPredeclared is exported for the scope checker.
 func IsKeywordOrPredeclared(s string) bool { return kwPre[s] }
+
+// foreignChain (static): a value whose type mentions packages that NO file
+// of the main package imports. Producer and consumer both live in the first
+// sibling package, so the main package only ever says ext.NewX / ext.NewY; the
+// generator has to import the foreign packages by itself wherever it spells
+// the type (var block of an injector with goroutines, argument, result).
+// Returns the consumer's result type (a pointer to a sibling-package struct).
+func (g *gen) foreignChain(depth int) int {
+	e := g.s.ExtPkgs[0]
+	var raw, feat string
+	var names []string
+	same := []ExtPkg{}
+	for _, x := range g.s.ExtPkgs[1:] {
+		if x.Name == g.s.ExtPkgs[len(g.s.ExtPkgs)-1].Name {
+			same = append(same, x)
+		}
+	}
+	k := g.r.Intn(6)
+	if len(same) < 2 && k >= 4 {
+		k = g.r.Intn(4)
+	}
+	switch k {
+	case 0:
+		raw, feat = "*url.URL", "foreign-stdlib-pointer"
+	case 1:
+		raw, feat = "time.Duration", "foreign-stdlib-named"
+	case 2:
+		raw, feat = "map[netip.Addr]*big.Int", "foreign-stdlib-two-packages-in-one-type"
+	case 3:
+		raw, feat = "[]*url.URL", "foreign-stdlib-slice"
+	default:
+		// two sibling packages that share one package name, in one type
+		a := g.addType(&Type{Kind: KStruct, Name: g.typeNameIn(same[0].Dir), Pkg: same[0].Dir, Base: -1})
+		b := g.addType(&Type{Kind: KStruct, Name: g.typeNameIn(same[1].Dir), Pkg: same[1].Dir, Base: -1})
+		raw = "map[*" + g.s.Expr(a, "") + "]*" + g.s.Expr(b, "")
+		if k == 5 {
+			raw = "func(" + g.s.Expr(a, "") + ") *" + g.s.Expr(b, "")
+		}
+		feat = "foreign-same-named-sibling-packages-in-one-type"
+		names = []string{g.s.Types[a].Name, g.s.Types[b].Name}
+	}
+	g.s.Dynamic = false
+	g.feature(feat)
+	for _, w := range []string{"url", "URL", "Duration", "netip", "Addr", "big", "Int"} {
+		if strings.Contains(raw, w) {
+			names = append(names, w)
+		}
+	}
+	t := g.addType(&Type{Kind: KRaw, Raw: raw, Base: -1, BaseVar: feat, RawNames: names})
+	p1 := &Prov{Kind: PFunc, Pkg: e.Dir, Results: []int{t}, Async: g.r.Float64() < g.o.AsyncP, Err: g.r.Intn(3) == 0}
+	id1 := g.addProv(p1)
+	p1.Fn = fmt.Sprintf("NewForeignP%d", id1)
+	g.budget--
+	rs := g.addType(&Type{Kind: KStruct, Name: g.typeNameIn(e.Dir), Pkg: e.Dir, Base: -1})
+	rp := g.addType(&Type{Kind: KPtr, Base: rs})
+	p2 := &Prov{Kind: PFunc, Pkg: e.Dir, Params: []int{t}, Results: []int{rp}, Async: g.r.Float64() < g.o.AsyncP}
+	id2 := g.addProv(p2)
+	p2.Fn = fmt.Sprintf("NewConsumerP%d", id2)
+	g.budget--
+	g.done = append(g.done, rp)
+	return rp
+}
